@@ -196,7 +196,7 @@ def handle (j : Json) : Except String Verdict := do
   let c16 := if hasPanic ser || hasPanic de || hasPanic via || hasPanic (get j "cross_out") || hasPanic (get j "fields_rt") then "fail" else "pass"
   -- records that are not the call stream of any `Serialize` implementation (a map value without its key, …) are
   -- outside the quantifier of the CONTENT clauses of C01/C02, but not of this property any more: since repo fix eafdf15 a
-  -- Map builder refuses the streams that do not alternate and whatever `to_marrow` accepts is well formed (`C03_wf`
+  -- Map builder refuses the streams that do not alternate and whatever `to_marrow` accepts is well formed (`C03_wfS`
   -- without `rawOK`), so the back ends must agree on them like on any other record (before the fix `to_marrow`
   -- returned a Map array with keys and values of different lengths, `to_arrow` failed and `to_arrow2` panicked:
   -- finding C16-map-key-value-alternation)
